@@ -43,6 +43,7 @@ class TlcResult:
             self.coverage[k] = self.coverage.get(k, 0) + v
         self.ok_completed = self.ok_completed and o.ok_completed
         self.postcondition_failed = self.postcondition_failed or o.postcondition_failed
+        self.stdout = (self.stdout + "\n" + o.stdout)[-20000:]
 
 
 def tla_value(v):
@@ -54,6 +55,8 @@ def tla_value(v):
         return '"%s"' % v
     if isinstance(v, (set, frozenset)):
         return "{" + ", ".join(tla_value(x) for x in sorted(v, key=lambda z: (str(type(z)), z))) + "}"
+    if isinstance(v, tuple) and len(v) == 2 and v[0] == "@raw":
+        return v[1]
     if isinstance(v, (list, tuple)):
         return "<<" + ", ".join(tla_value(x) for x in v) + ">>"
     raise TypeError(v)
